@@ -128,7 +128,7 @@ fn grid(thorough: bool) -> Vec<RHub> {
     let amounts: [u128; 5] = [0, 1, 1 << 64, (1u128 << 127) - 1, 1000];
     let datas = [0usize, 1, 32, 33];
     let names: Vec<Vec<u8>> = vec![b"T".to_vec(), "é".as_bytes().to_vec(), "🚀".as_bytes().to_vec(), vec![b'n'; 31], vec![b'n'; 32], vec![b'n'; 33]];
-    let symbols: Vec<Vec<u8>> = vec![b"S".to_vec(), "π€".as_bytes().to_vec(), vec![b's'; 32]];
+    let symbols: Vec<Vec<u8>> = vec![b"S".to_vec(), "π€".as_bytes().to_vec(), vec![b's'; 32], vec![b's'; 33]];
     for chain in chains() {
         for id in ids() {
             for sl in lens {
